@@ -216,8 +216,10 @@ pub fn feed(scheme: &Scheme, spec: &SchemeSpec, sid: usize, text: &str) -> Value
         // the caller's buffer does not outlive the call
         let mut buf: Vec<u8> = text_owned.as_bytes().to_vec();
         let ok = wirefilter_ffi::wirefilter_deserialize_json_to_execution_context(&mut w, buf.as_ptr(), buf.len());
+        // overwritten (as a caller recycling its buffer would) but kept allocated: the harness itself must not
+        // read freed memory if the engine kept a pointer into it
         buf.iter_mut().for_each(|b| *b = b'#');
-        drop(buf);
+        std::mem::forget(buf);
         let inner: ExecutionContext<'_> = w.into();
         // re-own with 'static data for abs()
         (ok, inner.clone_with(()))
